@@ -704,7 +704,8 @@ def rule_optional_uri(ctx):
     try:
         for value, allow_none, want in ((None, True, ("return", None)), ("com.realm", True, ("return", "com.realm")), (None, False, ("raise", "InvalidUriError")),
                                         ("com.realm", False, ("return", "com.realm"))):
-            env = {k_: Sym(f"<{k_}>") for k_ in m.consts}
+            # module-level names are opaque objects (compiled patterns ...) -- except tables given as displays, which are evaluated as such
+            env = {k_: Sym(f"<{k_}>") for k_, v_ in m.consts.items() if not isinstance(v_, (ast.Dict, ast.List, ast.Tuple, ast.Set))}
             env.update(base)
             env.update({names[0]: value, names[1]: "realm", "allow_none": allow_none})
             r = Tiny(env, default_call=default, model_types=True, model_strings=True, opaque_globals=True).run(body)
